@@ -133,6 +133,17 @@ func onceEach(r *h.Run, op Op) bool {
 
 type uFunc = u.Func
 
+// Re-entry shapes: a decorator of A whose own dependency (B, or the group g of
+// B) is produced by a constructor that consumes A. Demanding B first makes dig
+// enter B's constructor, start building A's decorator for it, and re-enter the
+// same constructor from inside that decorator (DESIGN.md §3.6-1).
+var (
+	dABae = u.F("dABae", "A,B", "A,error")             // decorator of A that needs B; may fail
+	dGBA  = u.F("dGBA", "{B*g}", "A")                  // decorator of A that needs the group g of B
+	dGBAe = u.F("dGBAe", "{B*g}", "A,error")           // the same; may fail
+	fBgAe = u.F("fBgAe", "A", "B,error", u.Group("g")) // group member B needing A; may fail
+)
+
 // ring pieces: constructor of X consuming Y.
 var (
 	rAB  = u.F("rAB", "B", "A")                // A needs B
